@@ -43,7 +43,12 @@ out += ["", f"{c} of {n} seeded changes are caught by the quick tier.", "",
         "larger than a tile and of odd shapes (C11-5), several image objects handled one after another and 1-6 flips per object",
         "(C16-4, C16-6), `FitsTiler(add_place_for_toast=False)` and a transient read error on the reused index (C17-7, C17-8),",
         "depth-4 walks in the quick tier of C03 (C03-7), an entirely undefined quartet under a left-over parent (C02-3, which the",
-        "quick tier had caught at one seed in three).", ""]
+        "quick tier had caught at one seed in three). Round 3 (C05, C07, C08, C13): one box filter asked about tiles of both",
+        "systems (C07-8), RA = 0 placed on a chosen point of the image's boundary, mostly next to the first corner, with deep probes",
+        "beside it (C07-9), PIL-backed and parity-flipped images in the study tiler (C08-7), tiles handed out by Pyramid objects /",
+        "lazily consumed enumerations while the other system is in use (C05-7, C05-9), use of a pyramid after a refused",
+        "sub-pyramid request (C13-8). **C05-8** makes `create_single_tile` return array corners that a box filter then sorts in",
+        "place: the clause that breaks is C07's 'never modifies the tile it inspects', and C07 reports it.", ""]
 p = os.path.join(HERE, "DESIGN.md")
 s = open(p).read()
 i = s.index("## 7. Which checks catch which seeded changes")
